@@ -460,7 +460,12 @@ pub fn run(ctx: &Ctx) -> Outcome {
             }
         }
     }
-    for (s, depth) in scenarios(thorough) {
+    // the special-purpose scenarios (storage fault, full queue) are small: they go before the big generic searches
+    let mut table = scenarios(thorough);
+    if !thorough {
+        table.sort_by_key(|(s, _)| !(s.store_fails || s.busy));
+    }
+    for (s, depth) in table {
         let st = explore::bfs(ctx, &s, depth, ctx.tier.pick(50, 25));
         per.push(json!({"scenario": s.name(), "depth": depth, "states": st.states, "transitions": st.transitions, "depth_completed": st.depth_completed, "choice_points": st.choice_points, "frontier": st.frontier_sizes}));
         total.merge(&st);
